@@ -143,7 +143,7 @@ func solve(P *Prog, o *Obligation, timeoutMs int, all bool) *Result {
 				continue
 			}
 			tried[sc] = true
-			r := solveScript(sc, timeoutMs/4, false)
+			r := solveScript(sc, timeoutMs/3, false)
 			if r.Verdict == "unsat" {
 				r.Solver += fmt.Sprintf("(hidden-defs:%d)", hide)
 				return r
